@@ -503,6 +503,7 @@ def check_c19(case, stats=None):
             arm.append((r.begin.t, r.args[0]))
     received = {}            # (m, topic, sender) -> count
     ticks = {}               # m -> count
+    since_run = {}
     for (r, m, in_unstash) in W.sys_deliv:
         if in_unstash:
             continue
@@ -524,6 +525,27 @@ def check_c19(case, stats=None):
                 t1 = arm[j + 1][0] if j + 1 < len(arm) else r.t
                 t1 = min(t1, r.t)
                 bound += (t1 - t0) * 1000.0 / per + 1
+            # no burst of stale ticks after a pause either: since the module last entered RUNNING
+            t_run = None
+            for i_, l_ in W.state_hist.get(m, []):
+                if i_ <= r.i and l_ == "R":
+                    t_run = W.recs[i_].t
+                elif i_ <= r.i and l_ != "R":
+                    t_run = None
+            if t_run is not None:
+                key_r = (m, t_run)
+                since_run[key_r] = since_run.get(key_r, 0) + 1
+                bound_r = 2.0
+                for j, (t0, per) in enumerate(arm):
+                    if per <= 0:
+                        continue
+                    a0 = max(t0, t_run)
+                    a1 = min(arm[j + 1][0] if j + 1 < len(arm) else r.t, r.t)
+                    if a1 > a0:
+                        bound_r += (a1 - a0) * 1000.0 / per + 1
+                if since_run[key_r] > bound_r + 1e-9:
+                    bad("tick-too-often", "module %d received %d tick notifications within %d us of (re)entering RUNNING; at most %.1f tick periods can have expired in that time: ticks that came due while it was paused are handed over in a burst" % (m, since_run[key_r], r.t - t_run, bound_r), r)
+                    continue
             if ticks[m] > bound + 1e-9:
                 bad("tick-too-often", "module %d received its tick notification #%d at t=%dus although at most %.1f tick periods can have expired since the tick was configured" % (m, ticks[m], r.t, bound), r)
             continue
